@@ -439,6 +439,7 @@ func (f *posaFam) oracle(r *hx.Run, n *posaNode, parentStoredBefore bool) {
 	if anc[0].num+1 != n.num {
 		r.Viol("C29:"+rt+":stored-with-wrong-number", fmt.Sprintf("header %s has number %d, its parent %s has number %d", n.id, n.num, anc[0].id, anc[0].num))
 	}
+	n.refTD = anc[0].refTD + n.diff
 	if len(n.extra) < 97 || (len(n.extra)-97)%20 != 0 || n.mixBad || n.uncBad {
 		r.Viol("C29:"+rt+":malformed-stored", fmt.Sprintf("header %s stored with extra length %d, mixBad=%v uncleBad=%v", n.id, len(n.extra), n.mixBad, n.uncBad))
 	}
@@ -478,7 +479,6 @@ func (f *posaFam) oracle(r *hx.Run, n *posaNode, parentStoredBefore bool) {
 	if n.diff != want {
 		r.Viol("C29:"+rt+":wrong-difficulty-stored", fmt.Sprintf("header %s (number %d) stored with difficulty %d, signer in turn = %v", n.id, n.num, n.diff, inTurn))
 	}
-	n.refTD = anc[0].refTD + n.diff
 }
 
 // canonOracle: the canonical head is a stored header of maximal total difficulty (reference sums) and the canonical
